@@ -52,6 +52,9 @@ func (e *Engine) verifyLemmas(pkgPath string, names []string) (res *FuncResult) 
 	f.entryGuard = tTrue
 	env := f.baseEnv(f.heap)
 	for _, ax := range e.axioms {
+		if p := e.axiomPkg[ax]; p != "" && p != pkgPath {
+			continue
+		}
 		c.assume(f.evalClause(env, ax))
 		c.assumed["axiom: "+ax.Text] = true
 	}
